@@ -7,10 +7,8 @@
 
 use std::{collections::BTreeMap, time::Duration};
 
-use bytes::BytesMut;
 use mpd_client::{
     commands::{self as c, Command},
-    protocol::command::Argument,
     responses::{Song, SongInQueue},
 };
 use rayon::prelude::*;
@@ -131,9 +129,7 @@ fn encode(listing: &[Entry]) -> (Vec<(String, String)>, Vec<ASong>) {
 }
 
 fn tag_name(t: &mpd_client::tag::Tag) -> String {
-    let mut b = BytesMut::new();
-    t.render(&mut b);
-    String::from_utf8_lossy(&b).into_owned()
+    argument_as_the_server_reads_it(t)
 }
 
 fn observe_song(s: &Song) -> ASong {
@@ -217,6 +213,9 @@ fn diff(kind: &str, want: &[ASong], got: &[ASong]) -> Option<String> {
 }
 
 /// the protocol's tag names (MPD tag_names[]), plus one the library does not know
+/// exactly representable or harmless under f64 -> nanosecond rounding
+const DURATION_SPELLINGS: &[&str] = &["2.5", "10.25", "61.0625", "3.0", "1.0000", "0.5", "0.05", "0.005", "0.0005", "12", "1.50", "1.500000", "99.999999", "7.000001", "0.125", "1234.5", "5.25", "100.75"];
+
 const TAG_NAMES: &[&str] = &[
     "Artist", "ArtistSort", "Album", "AlbumSort", "AlbumArtist", "AlbumArtistSort", "Title", "Track", "Name", "Genre", "Date", "OriginalDate", "Composer", "ComposerSort", "Performer", "Conductor", "Work", "Ensemble", "Movement",
     "MovementNumber", "Location", "Grouping", "Comment", "Disc", "Label", "MUSICBRAINZ_ARTISTID", "MUSICBRAINZ_ALBUMID", "MUSICBRAINZ_ALBUMARTISTID", "MUSICBRAINZ_TRACKID", "MUSICBRAINZ_RELEASETRACKID", "MUSICBRAINZ_WORKID",
@@ -379,6 +378,33 @@ pub fn run(tier: Tier) -> i32 {
         }
         let want = ASong { url: "all.flac".into(), tags: all_tags, ..Default::default() };
         check_fields(&all_fields, &[want], &json!({"tag_line": "all"}), &mut acc3, false);
+        // tag names are matched without regard to letter case (C20): other spellings of a known
+        // name are lines of the same tag, in wire order; an unknown name stays as it was sent
+        for (i, name) in TAG_NAMES.iter().enumerate() {
+            // (from the protocol's table, not from the code under test)
+            let known = *name != "X-Custom";
+            for variant in [name.to_lowercase(), name.to_uppercase()] {
+                if variant == *name {
+                    continue;
+                }
+                let fields: Vec<(String, String)> = vec![("file".into(), "c.flac".into()), (name.to_string(), format!("canonical {i}")), (variant.clone(), format!("variant {i}")), (name.to_string(), format!("again {i}"))];
+                let mut want = ASong { url: "c.flac".into(), ..Default::default() };
+                if known {
+                    want.tags.insert(name.to_string(), vec![format!("canonical {i}"), format!("variant {i}"), format!("again {i}")]);
+                } else {
+                    want.tags.insert(name.to_string(), vec![format!("canonical {i}"), format!("again {i}")]);
+                    want.tags.insert(variant.clone(), vec![format!("variant {i}")]);
+                }
+                check_fields(&fields, &[want], &json!({"tag_line": name, "variant": variant}), &mut acc3, false);
+            }
+        }
+    }
+    // durations in other decimal spellings than MPD's %.3f (fewer / more fraction digits)
+    for text in DURATION_SPELLINGS {
+        let fields: Vec<(String, String)> = vec![("file".into(), "d.flac".into()), ("duration".into(), text.to_string()), ("Range".into(), format!("{text}-{text}"))];
+        let d = dur(text);
+        let want = ASong { url: "d.flac".into(), duration: Some(d), range: Some((d, Some(d))), ..Default::default() };
+        check_fields(&fields, &[want], &json!({"duration_text": text}), &mut acc3, false);
     }
     // every millisecond value in a range as a song duration / range bound
     let ms_max = tier.pick(5_000u64, 60_000u64);
@@ -399,7 +425,7 @@ pub fn run(tier: Tier) -> i32 {
     cov.evaluations = acc.decodes;
     cov.distinct_nontrivial = acc.nontrivial;
     cov.rule = format!(
-        "one-song listings with every ordered selection of <= {} distinct lines out of 19 (duration, Time, two Range forms, Format, Last-Modified, Prio, Pos, Id, Title twice, Artist, unknown tag): {} shapes; all listings of 0..={} entries over 10 entry kinds (6 song shapes, directory / playlist with and without their own Last-Modified): {} listings; each decoded by playlistinfo, playlistinfo RANGE, find, listplaylistinfo, listallinfo (and currentsong for <= 1 song); plus every one of the protocol's 31 tag names (and an unknown one) as a repeated line of a song, one at a time and all together; every millisecond value 0.000..5.000 s (thorough: ..60.000 s) as duration and Range start; non-trivial = listings with several entries or a song with tags / duration",
+        "one-song listings with every ordered selection of <= {} distinct lines out of 19 (duration, Time, two Range forms, Format, Last-Modified, Prio, Pos, Id, Title twice, Artist, unknown tag): {} shapes; all listings of 0..={} entries over 10 entry kinds (6 song shapes, directory / playlist with and without their own Last-Modified): {} listings; each decoded by playlistinfo, playlistinfo RANGE, find, listplaylistinfo, listallinfo (and currentsong for <= 1 song); plus every one of the protocol's 31 tag names (and an unknown one) as a repeated line of a song, one at a time and all together; every millisecond value 0.000..5.000 s (thorough: ..60.000 s) as duration and Range start, 18 other decimal spellings (1..6 fraction digits); lower / upper case spellings of every tag name mixed with the canonical one; non-trivial = listings with several entries or a song with tags / duration",
         tier.pick(4, 5),
         sel.len(),
         tier.pick(3, 4),
@@ -421,9 +447,19 @@ pub fn replay(case: &Value) -> i32 {
         let mut acc = Acc::default();
         let names: Vec<&str> = if name == "all" { TAG_NAMES.to_vec() } else { vec![name] };
         for n in names {
-            let fields: Vec<(String, String)> = vec![("file".into(), "one.flac".into()), (n.to_string(), "value".into())];
+            let mut fields: Vec<(String, String)> = vec![("file".into(), "one.flac".into()), (n.to_string(), "value".into())];
             let mut want = ASong { url: "one.flac".into(), ..Default::default() };
             want.tags.insert(n.to_string(), vec!["value".into()]);
+            if let Some(variant) = case.get("variant").and_then(|v| v.as_str()) {
+                // another spelling of the name: the same tag if the name is a known one
+                fields.push((variant.to_string(), "variant".into()));
+                let known = n != "X-Custom";
+                if known {
+                    want.tags.get_mut(n).unwrap().push("variant".into());
+                } else {
+                    want.tags.insert(variant.to_string(), vec!["variant".into()]);
+                }
+            }
             check_fields(&fields, &[want], case, &mut acc, true);
         }
         if acc.viol.is_empty() {
@@ -434,6 +470,15 @@ pub fn replay(case: &Value) -> i32 {
             println!("replay: VIOLATION sig={sig}: {}", ex[0].what);
         }
         return 1;
+    }
+    if let Some(text) = case.get("duration_text").and_then(|v| v.as_str()) {
+        println!("replay C14: song with duration {text}");
+        let fields: Vec<(String, String)> = vec![("file".into(), "d.flac".into()), ("duration".into(), text.to_string()), ("Range".into(), format!("{text}-{text}"))];
+        let d = dur(text);
+        let want = ASong { url: "d.flac".into(), duration: Some(d), range: Some((d, Some(d))), ..Default::default() };
+        let mut acc = Acc::default();
+        check_fields(&fields, &[want], case, &mut acc, true);
+        return if acc.viol.is_empty() { println!("replay: property holds on this case"); 0 } else { println!("replay: VIOLATION"); 1 };
     }
     if let Some(ms) = case.get("duration_ms").and_then(|v| v.as_u64()) {
         let text = format!("{}.{:03}", ms / 1000, ms % 1000);
